@@ -146,12 +146,18 @@ def build_route_decision_event(
 
     from hypergraph.events.types import RouteDecisionEvent
 
+    decision = state.routing_decisions[node.name]
+    if isinstance(decision, list):
+        # The event gets its own list: what a processor does to the event it was
+        # handed must not reach the decision the scheduler (and the cache) keep using
+        decision = list(decision)
+
     return RouteDecisionEvent(
         run_id=run_id,
         parent_span_id=run_span_id,
         node_name=node.name,
         graph_name=graph.name,
-        decision=state.routing_decisions[node.name],
+        decision=decision,
     )
 
 
